@@ -73,7 +73,7 @@ def cfgs(prop, tier):
                   "FailKinds": '{"err", "oog"}', "MaxFailPos": "3",
                   "InitProgs": '{"stop", "revert", "big"}', "TopCreates": "TRUE", "MaxTop": "2"}
         return dict(
-            mc=[dict(common, MaxInstr="3", MaxNodes="3", MaxDepth="1", MaxTop="1")] if q else [dict(common, MaxInstr="3", MaxNodes="4", MaxDepth="1")],
+            mc=[dict(common, MaxInstr="2", MaxNodes="3", MaxDepth="1", MaxTop="1")] if q else [dict(common, MaxInstr="3", MaxNodes="4", MaxDepth="1")],
             scn=[dict(common, MaxInstr="2", MaxNodes="3")] if q else [dict(common, MaxInstr="3", MaxNodes="4", MaxTop="1")],
             forks=["London"] if q else ["Byzantium", "London", "Cancun"])
     if prop == "C08":
@@ -114,19 +114,20 @@ NEGATIVE = {
 }
 
 
-def replay(v, prop, overrides, forks, timeout, every=1):
+def replay(v, prop, overrides, forks, timeout, every=1, simulate=0):
     opts = {k: x for k, x in overrides.items() if k.startswith("_")}
     overrides = {k: x for k, x in overrides.items() if not k.startswith("_")}
     rep = os.path.join(tempfile.mkdtemp(prefix="vrep."), "rep.json")
     try:
-        rc, out, stats = run_tlc("ArtelaEVMScn", BASE, timeout, workers=8, overrides=overrides,
-                                 invariants=INV[prop] + ["Emit"], properties=PROPS.get(prop), drop_properties=prop not in PROPS,
+        rc, out, stats = run_tlc("ArtelaEVMScn", BASE, timeout, workers=1 if simulate else 8, overrides=overrides,
+                                 invariants=INV[prop] + ["Emit"], properties=None if simulate else PROPS.get(prop), drop_properties=bool(simulate) or prop not in PROPS,
+                                 extra=(["-simulate", "num=%d" % simulate, "-depth", "90", "-seed", str(seed())] if simulate else ()),
                                  pipe_to=[VERIFH, "scn", "-forks", ",".join(forks), "-out", rep, "-every", str(every),
                                           "-workers", opts.get("_workers", "0")])
         bad = tlc_violation(out)
         if bad:
             raise InfraError("design model violates %s with all deviation switches off (specification bug):\n%s" % (bad, out[-3000:]))
-        if "Model checking completed" not in out:
+        if "Model checking completed" not in out and not simulate:
             raise InfraError("scenario emission did not complete:\n" + out[-2000:])
         if not os.path.exists(rep):
             raise InfraError("replayer wrote no report:\n" + out[-2000:])
@@ -193,10 +194,23 @@ def check(prop, tier):
         r = replay(v, prop, ov, c["forks"], 1500 if q else 3400)
         v.notes.setdefault("scn_runs", []).append({"overrides": ov, "scenarios": r["scenarios"], "runs": r["runs"], "forks": c["forks"],
                                                    "mismatching_components": r.get("byComp")})
+    # 4. beyond the exhaustive bound: random behaviours of a larger instance of the same model (tlc -simulate), replayed likewise
+    big = {k: x for k, x in c["scn"][0].items() if not k.startswith("_")}
+    big.update(MaxInstr="7", MaxNodes="6", MaxTop="2")
+    if "BoundSets" in big and big["BoundSets"] != "{{}}":
+        big["BoundSets"] = "{{}}"
+    nsim = 2000 if q else 60000
+    r = replay(v, prop, big, c["forks"][:1] if q else c["forks"], 1500 if q else 3400, simulate=nsim)
+    v.notes["simulated_run"] = {"overrides": big, "behaviours_requested": nsim, "scenarios_replayed": r["scenarios"], "mismatching_components": r.get("byComp")}
+    # 5. code -> model on large random programs (C07, C08): the call tree dumped after each run must be the tree that the
+    #    debug-tracer callbacks of that run imply (StepTrace.tla rebuilds it, including attempts refused up front)
+    if prop in ("C07", "C08"):
+        import steptrace
+        steptrace.run(v, prop, tier)
     v.cov["exhaustive"] = True
     v.cov["rule"] = ("every complete behaviour of ArtelaEVM.tla within the stated constants (see notes.scn_runs) is compiled to byte code and "
                      "executed on the real EVM; distinct = distinct (tops, frames, failure position/kind, bound set); non-trivial = more than one "
-                     "frame or an injected join-point failure")
+                     "frame or an injected join-point failure; plus random behaviours of a larger instance (tlc -simulate) and, for C07/C08, trace validation of generated programs (notes.trace_validation)")
     v.assumptions += ["TLC 1.8", "go-ethereum v1.12.0 core/state.StateDB as the world", "the scenario compiler (harness/scn) maps model instructions to byte code faithfully",
                       "Aspect failures are injected at provider level (GetTxBondAspects error); bound Aspects are real WASM run by aspect-runtime"]
     return v.finish()
